@@ -13,7 +13,7 @@ from core import AnchorLost, RuleReport
 import mirlib
 from mirlib import strip_generics, callee_name
 from rules.common import find_one
-from rules.writer import local_sources
+from rules.writer import local_sources, _places_in_stmt
 
 ITER = "tag_iterator::TagIterator"
 
@@ -323,6 +323,10 @@ def _stack_shrinks(body):
         if nm.startswith("std::vec::Vec::") and nm.split("::")[-1] in SHRINKERS:
             a0 = t["args"][0]
             if a0.get("k") in ("copy", "move") and "field:tag_stack" in local_sources(body, a0["place"]["local"]):
+                # the receiver is the stack itself, not a local container that merely received what was taken from the stack
+                root = _borrow_root(body, a0["place"]["local"])
+                if root is not None and root[0] == "local":
+                    continue
                 out.append((cb, nm.split("::")[-1], t))
     return out
 
@@ -475,6 +479,120 @@ def r_eof_flag(ctx):
             {"field:tag_stack", "call:core::slice::iter"} <= local_sources(rn, x[1]["args"][0]["place"]["local"])]
     rep.instance("known-size exhaustion scans over the whole stack from the bottom: %d" % len(good))
     rep.oblige(len(good) >= 1, "CLOSE|known|scan", rn.span, "the first exhausted known-size master is not searched from the bottom of the whole tag_stack (position()/enumerate() over tag_stack.iter())")
+    return rep
+
+
+FILLERS = ("push", "push_back", "push_front", "extend", "append", "insert", "extend_from_slice", "extend_one")
+CONTAINERS = ("std::vec::Vec", "std::collections::VecDeque", "std::collections::vec_deque::VecDeque", "alloc::vec::Vec", "alloc::collections::vec_deque::VecDeque")
+
+
+def _borrow_root(b, local, depth=6):
+    """what a reference local points at: ('field', name) for a field of self, ('local', n) for a whole local, else None"""
+    cur = local
+    for _ in range(depth):
+        d = _def_of(b, cur)
+        if d is None:
+            return None
+        rv = d["rv"]
+        if rv["k"] in ("ref", "rawptr"):
+            pl = rv["place"]
+            fields = [e.get("name") for e in pl["proj"] if e["k"] == "field" and e.get("name")]
+            if fields:
+                return ("field", fields[-1])
+            if not [e for e in pl["proj"] if e["k"] != "deref"]:
+                if pl["proj"]:       # reborrow through a reference local
+                    cur = pl["local"]
+                    continue
+                return ("local", pl["local"])
+            return None
+        if rv["k"] == "use" and rv["op"].get("k") in ("copy", "move") and not rv["op"]["place"]["proj"]:
+            cur = rv["op"]["place"]["local"]
+            continue
+        return None
+    return None
+
+
+def r_close_emits(ctx):
+    """Pairing rule: a master removed from the open-master stack is queued as an End on every path (C06 'every open master receives its End',
+    C12 'the Ends of the masters completely contained in the prefix precede the end-of-file error')."""
+    rep = RuleReport("R-CLOSE-EMITS", "every value removed from tag_stack in read_next flows into the emission queue: directly (the removal's result "
+                     "reaches a push/extend of emission_queue), or through a local staging container that is handed to the queue on every path from "
+                     "the point where it received masters to the return of read_next (error paths included)")
+    prog = ctx.prog
+    rn = find_one(prog, "TagIterator::read_next")
+    sites = _stack_shrinks(rn)
+    if not sites:
+        raise AnchorLost("read_next no longer shrinks tag_stack")
+    calls = list(rn.calls())
+    returns = {b for b in rn.live_blocks() if rn.blocks[b]["term"]["k"] == "return"}
+
+    def stmt_reads(st):
+        return {pl["local"] for kind, pl in _places_in_stmt(st)[1:]}
+
+    def closure(seed_locals):
+        """forward value flow (flow-insensitive): assignments and call results that mention a tainted local; filling a local container taints it.
+        Returns (tainted locals, queue sink blocks, {container local: fill blocks})"""
+        T = set(seed_locals)
+        sinks = set()
+        fills = {}
+        changed = True
+        while changed:
+            changed = False
+            for bb, i, st in rn.statements():
+                if st["k"] != "assign":
+                    continue
+                if stmt_reads(st) & T and st["place"]["local"] not in T:
+                    T.add(st["place"]["local"])
+                    changed = True
+            for bb, t, c in calls:
+                args = [a["place"]["local"] for a in t["args"] if a.get("k") in ("copy", "move")]
+                if not (set(args) & T):
+                    continue
+                nm = strip_generics(c["path"]) if c is not None else ""
+                short = nm.split("::")[-1]
+                if short in FILLERS and len(args) >= 2 and (set(args[1:]) & T):
+                    root = _borrow_root(rn, args[0])
+                    if root == ("field", "emission_queue"):
+                        sinks.add(bb)
+                    elif root is not None and root[0] == "local":
+                        if bb not in fills.setdefault(root[1], set()):
+                            fills[root[1]].add(bb)
+                            changed = True
+                        if root[1] not in T:
+                            T.add(root[1])
+                            changed = True
+                d = t["dest"]["local"]
+                if d not in T:
+                    T.add(d)
+                    changed = True
+                # a collected container
+                dty = rn.local_ty(d) or {}
+                if strip_generics(dty.get("path", "")) in CONTAINERS and not t["dest"]["proj"]:
+                    if bb not in fills.setdefault(d, set()):
+                        fills[d].add(bb)
+                        changed = True
+        return T, sinks, fills
+
+    for cb, kind, t in sites:
+        where = "read_next bb%d %s()" % (cb, kind)
+        T, sinks, fills = closure({t["dest"]["local"]})
+        # staging containers: locals that were filled with removed masters (moves of a container into another local keep the fill blocks)
+        staged = {}
+        for L, fb in fills.items():
+            staged[L] = set(fb)
+        rep.instance("%s: reaches the queue in blocks %s%s" % (where, sorted(sinks), (", staged in locals %s" % sorted(staged)) if staged else ""))
+        rep.oblige(bool(sinks), "CLOSE-EMITS|%s|queued" % kind, rn.span, "%s: the masters removed from tag_stack never reach emission_queue" % where)
+        for L, fb in sorted(staged.items()):
+            TL, sinksL, _ = closure({L})
+            # plain moves of the container (`let v2 = v`) are the same container
+            lost = []
+            for f in sorted(fb):
+                if rn.reachable_from(f, stop=frozenset(sinksL)) & returns:
+                    lost.append(f)
+            rep.oblige(not lost, "CLOSE-EMITS|%s|staged|every-path" % kind, rn.span,
+                       "%s: the removed masters are staged in a local container (_%d) that is not handed to emission_queue on some path from "
+                       "bb%s to the return of read_next (their End items are lost there)" % (where, L, lost))
+    rep.require_floor(3, "closing sites")
     return rep
 
 
